@@ -72,6 +72,8 @@ class Translator:
         self.markpos = {}        # (pid, fd) -> last lseek position
         self.recs_emitted = set()
         self.notes = []
+        self.marked = set()          # (n, 'l'|'r', address) whose completion mark was written
+        self.passidx = {}            # (n, chan) -> record index of the last delivery command
         self.skip = {0: 0, 1: 0}     # bytes of the spawner's start-up announcement still to be skipped
         self.alias = {}              # big numbers (inodes, pids) -> small ones for the extracted automaton
     def al(self, n):
@@ -91,15 +93,20 @@ class Translator:
     def feed(self, lines, send_pid=None, clean_pid=None):
         if send_pid: self.send = send_pid
         if clean_pid: self.clean = clean_pid
+        pids = {}
+        for l in lines:
+            if l.startswith("0 MARK pids "):
+                w = l.split(" "); pids[w[3]] = (int(w[4]), int(w[5]))
         for k, l in enumerate(lines):
             w = l.split(" ")
             if len(w) < 2: continue
             if w[0] == "0" and w[1] == "MARK":
                 if w[2] == "crash":
-                    self.emit("crash", k); self.inflight.clear(); self.owed = []; self.pre = None; self.bouncing = None
+                    self.emit("crash", k); self.inflight.clear(); self.owed = []; self.pre = None; self.bouncing = None; self.passidx = {}
                     self.cmdbuf = {0: b"", 1: b""}; self.repbuf = {0: b"", 1: b""}
                 elif w[2] == "start":
-                    self.emit("start %s %s" % (w[3], w[4]), k); self.send = int(w[5]); self.clean = int(w[6]); self.skip = {0: 1, 1: 1}
+                    self.emit("start %s %s" % (w[3], w[4]), k); self.skip = {0: 1, 1: 1}
+                    if w[5] in pids: self.send, self.clean = pids[w[5]]
                 elif w[2] == "aged":
                     self.aged.add(int(w[3]))
                 continue
@@ -113,9 +120,10 @@ class Translator:
                 n = self.num(path); d = path.split("/")[0]
                 creat = bool(flags & os.O_CREAT) and bool(flags & os.O_EXCL)
                 if pid == self.send:
-                    if d == "todo" and n is not None: self.pre = n; self.chanbuf[(n, 0)] = b""; self.chanbuf[(n, 1)] = b""
+                    if d == "todo" and n is not None: self.pre = n; self.chanbuf[(n, 0)] = b""; self.chanbuf[(n, 1)] = b""; self.recs_emitted.discard(n)
                     elif d in ("info", "local", "remote") and creat: self.emit("create %d %s" % (n, d), k)
                     elif d == "bounce" and (flags & os.O_ACCMODE) == os.O_RDONLY: self.bouncing = n; self.bounce_committed = False
+                    elif d == "bounce" and (flags & os.O_APPEND): self.on_note(n, b"", k)      # the record exists from here on, even if the process dies before writing
                 elif d == "intd" and creat:
                     self.injn[pid] = n; self.intd_content[pid] = b""; self.emit("injintd %d %d" % (pid, n), k)
             elif op == "link" and w[-2] == "0" and len(w) >= 6:
@@ -144,7 +152,7 @@ class Translator:
                     elif d in ("local", "remote"): self.emit("unlinkchan %d %d" % (n, 0 if d == "local" else 1), k)
                     elif d == "info": self.emit("unlinkinfo %d" % n, k)
                     elif d == "bounce":
-                        if self.bouncing == n and not self.bounce_committed: self.emit("bouncediscard %d" % n, k)
+                        if not (self.bouncing == n and self.bounce_committed): self.emit("bouncediscard %d" % n, k)
                         self.emit("unlinkbounce %d" % n, k); self.bouncing = None
                 elif pid == self.clean:
                     if d == "intd":
@@ -178,8 +186,6 @@ class Translator:
                         elif data == b"D":
                             pos = self.markpos.get((pid, fd), 0)
                             self.on_mark(n, c, pos, k)
-                    elif pid == self.send and d == "bounce" and (pf[1] & os.O_APPEND):
-                        self.on_note(n, data, k)
                     elif d == "intd" and pid != self.send:
                         self.intd_content[pid] = self.intd_content.get(pid, b"") + data
             elif op == "read" and pid == self.send and w[2] in ("2", "4") and len(w) >= 6:
@@ -212,7 +218,11 @@ class Translator:
             busy = {(m, i) for (cc, s), (m, i) in self.inflight.items() if cc == c}
             owed = {(m, i) for (m, cc, i, v) in self.owed if cc == c}
             pick = [i for i in cand if self.state.get((n, c, i)) == "T" and (n, i) not in busy and (n, i) not in owed]
-            i = pick[0] if pick else (cand[0] if cand else 999)
+            # the same address may occur twice: a pass reads the file front to back, a new pass starts at the top
+            last = self.passidx.get((n, c), -1)
+            later = [i for i in pick if i > last]
+            i = later[0] if later else (pick[0] if pick else (cand[0] if cand else 999))
+            self.passidx[(n, c)] = i
             self.inflight[(c, slot)] = (n, i)
             self.emit("cmd %d %d %d %d" % (c, slot, n, i), k)
     def on_rep(self, c, data, k):
@@ -232,7 +242,7 @@ class Translator:
             self.emit("rep %d %d %s" % (c, slot, v), k)
     def on_note(self, n, data, k):
         # a paragraph for the most recent failure report of message n not yet noted
-        for j in range(len(self.owed) - 1, -1, -1):
+        for j in range(len(self.owed)):
             m, c, i, v = self.owed[j]
             if m == n and (m, c, i) not in self.notes:
                 if v != "D":
@@ -254,6 +264,7 @@ class Translator:
         if idx is None:
             self.emit("mark %d %d 999" % (n, c), k); return
         self.state[(n, c, idx)] = "D"
+        self.marked.add((n, "l" if c == 0 else "r", addrs[idx]))
         self.owed = [o for o in self.owed if not (o[0] == n and o[1] == c and o[2] == idx)]
         self.notes = [x for x in self.notes if x != (n, c, idx)]
         self.emit("mark %d %d %d" % (n, c, idx), k)
@@ -266,6 +277,15 @@ def accept(drv, events):
     for i, o in enumerate(out[1:-1]):
         if o != "ok":
             rej = i; break
+    if rej is not None:
+        # the automaton's view of the message concerned, just before the rejected event
+        w = events[rej][0].split(" ")
+        num = {"cmd": 3}.get(w[0], 1)
+        q = w[num] if len(w) > num and w[0] not in ("rep", "crash", "start") else None
+        if w[0] in ("injmess", "injintd", "injcommit", "injabort"): q = w[2]
+        if q:
+            o2, _, _ = vlib.run_lines(drv, ["reset"] + ["ev " + e[0] for e in events[:rej]] + ["msg " + q])
+            return rej, o2[-1]
     return rej, out[-1]
 
 class World:
@@ -274,12 +294,17 @@ class World:
         self.rb = rb
         self.home = rb.make_home()
         os.chmod(vlib.scratch(), 0o755)
+        # a fresh queue for every world
+        q = os.path.join(self.home, "queue")
+        for d in FILES + ["pid"]:
+            for root, _, fs in os.walk(os.path.join(q, d)):
+                for f in fs: os.remove(os.path.join(root, f))
         for f, v in [("me", "local.example"), ("locals", "local.example"), ("rcpthosts", "local.example"),
                      ("concurrencylocal", str(conc[0])), ("concurrencyremote", str(conc[1]))]:
             open(os.path.join(self.home, "control", f), "w").write(v + "\n")
         self.log = os.path.join(vlib.scratch(), "%s.%d.log" % (name, len(os.listdir(vlib.scratch()))))
         open(self.log, "w").close()
-        ex = {"SYSSHIM_LOGWRITE": "all", "SYSSHIM_LOGDATA": "2048", "SYSSHIM_LOGREAD": "2,4"}
+        ex = {"SYSSHIM_LOGWRITE": "all", "SYSSHIM_LOGDATA": "2048", "SYSSHIM_LOGREAD": "2,4", "SYSSHIM_KILLSIG": "1"}
         if extra_env: ex.update(extra_env)
         self.env = vlib.shim_env(self.home, self.log, extra=ex)
         self.d = None
@@ -289,11 +314,20 @@ class World:
         with open(self.log, "a") as f: f.write("0 MARK %s\n" % text)
     def start(self, autoreply=None, send_extra=None, announce=(4, 4)):
         senv = dict(self.env, **send_extra) if send_extra else None
+        self.nstart = getattr(self, "nstart", 0) + 1
+        self.mark("start %d %d s%d" % (min(self.conc[0], announce[0]), min(self.conc[1], announce[1]), self.nstart))
         self.d = dc.Daemon(self.rb, self.home, self.env, autoreply=autoreply, send_env=senv, announce=announce)
         self.announce = announce
-        self.mark("start %d %d %d %d" % (min(self.conc[0], announce[0]), min(self.conc[1], announce[1]), self.d.send_pid, self.d.clean_pid))
+        self.mark("pids s%d %d %d" % (self.nstart, self.d.send_pid, self.d.clean_pid))
         return self.d
     def crash(self):
+        """the daemon dies before its next mutating system call (or, if it is idle, inside select); then the cleaner"""
+        try:
+            os.kill(self.d.send_pid, signal.SIGUSR2)
+            end = time.time() + 0.3
+            while time.time() < end and self.d.alive(): self.d.pump(0.02)
+        except ProcessLookupError: pass
+        time.sleep(0.03)
         self.d.stop(); self.mark("crash"); self.d = None
     def inject(self, sender=b"s@x.example", rcpts=(b"u@local.example",), msg=b"Subject: t\n\nb\n", env=None, wait=True):
         r0, w0 = os.pipe(); r1, w1 = os.pipe()
@@ -309,3 +343,136 @@ class World:
     def alarm(self):
         """SIGALRM: every retry time becomes now"""
         os.kill(self.d.send_pid, signal.SIGALRM)
+
+BOUNCE_RE = re.compile(rb"^<([^>\n]*)>:$", re.M)
+
+class Runner:
+    """drives one history: injections, scripted delivery outcomes, signals, crashes; remembers what the spawners saw"""
+    def __init__(self, W, plan, default=b"K", announce=(4, 4)):
+        self.W = W; self.plan = {k: list(v) for k, v in plan.items()}; self.default = default
+        self.accepted = []          # (sender, [rcpts])
+        self.cmds = []              # dict(n, chan, rcpt, sender, verdict, gen) in order; gen = daemon generation
+        self.gen = 0
+        self.bounced = set()        # recipients named in bounce messages seen in the queue
+        self.announce = announce
+        self.maxfly = {"l": 0, "r": 0}
+        self.history = []
+    def start(self, send_extra=None):
+        self.W.start(autoreply=None, send_extra=send_extra, announce=self.announce); self.gen += 1
+        self.history.append("start")
+    def inject(self, sender, rcpts, **kw):
+        rc = self.W.inject(sender=sender, rcpts=rcpts, **kw)
+        self.history.append("inject %s -> %s rc=%d" % (sender.decode("latin1"), ",".join(r.decode("latin1") for r in rcpts), rc))
+        if rc == 0: self.accepted.append((sender, list(rcpts)))
+        return rc
+    def scan_bounces(self):
+        base = os.path.join(self.W.home, "queue", "mess")
+        for sd in os.listdir(base):
+            for f in os.listdir(os.path.join(base, sd)):
+                try: b = open(os.path.join(base, sd, f), "rb").read()
+                except OSError: continue
+                if b"This is the qmail-send program" in b:
+                    for m in BOUNCE_RE.findall(b.split(b"--- Below this line")[0]): self.bounced.add(m)
+    def service(self, t=0.15, answer=True):
+        d = self.W.d
+        if d is None: return
+        d.pump(t)
+        fly = {"l": 0, "r": 0}
+        for dl in d.deliveries:
+            if not dl["answered"] and not dl.get("lost"): fly[dl["chan"]] += 1
+        for k in fly: self.maxfly[k] = max(self.maxfly[k], fly[k])
+        self.scan_bounces()
+        for dl in d.deliveries:
+            if dl.get("seen"): continue
+            dl["seen"] = True
+            n = int(dl["fn"].split(b"/")[-1])
+            rec = dict(n=n, chan=dl["chan"], rcpt=dl["rcpt"], sender=dl["sender"], verdict=None, gen=self.gen, dl=dl)
+            self.cmds.append(rec)
+        if not answer: return
+        for rec in self.cmds:
+            dl = rec["dl"]
+            if rec["gen"] != self.gen or dl["answered"] or dl.get("lost"): continue
+            pl = self.plan.get(rec["rcpt"])
+            v = (pl.pop(0) if pl else self.default)
+            if v is None:
+                dl["lost"] = True; rec["verdict"] = b"lost"; self.history.append("no report for %s" % rec["rcpt"].decode("latin1")); continue
+            rec["verdict"] = v
+            self.history.append("report %s for msg %d %s" % (v[:12].decode("latin1"), rec["n"], rec["rcpt"].decode("latin1")))
+            try: d.reply(dl, v + b" text\n")
+            except OSError: pass
+    def queue_empty(self):
+        return not listing(self.W.home)
+    def drain(self, rounds=14, t=0.15):
+        for r in range(rounds):
+            self.service(t)
+            if self.W.d and not self.W.d.pending() and self.queue_empty(): return True
+            if r % 2 == 1 and self.W.d and self.W.d.alive():
+                try: self.W.alarm(); self.history.append("SIGALRM")
+                except ProcessLookupError: pass
+        return False
+    def kill(self):
+        self.history.append("SIGKILL qmail-send+qmail-clean"); self.W.crash()
+    def term(self):
+        self.history.append("SIGTERM")
+        ok = self.W.d.term()
+        self.W.crash()
+        return ok
+    # ---- oracles on what really happened
+    def still_todo(self):
+        """recipients still marked T in a channel file, or still in an unprocessed todo envelope"""
+        out = set()
+        q = os.path.join(self.W.home, "queue")
+        for d in ("local", "remote"):
+            for sd in os.listdir(os.path.join(q, d)):
+                for f in os.listdir(os.path.join(q, d, sd)):
+                    for st, a in records(os.path.join(q, d, sd, f)) or []:
+                        if st == "T": out.add(a)
+        for f in os.listdir(os.path.join(q, "todo")):
+            try: b = open(os.path.join(q, "todo", f), "rb").read()
+            except OSError: continue
+            for p in b.split(b"\0"):
+                if p[:1] == b"T": out.add(p[1:])
+        return out
+    def dropped(self):
+        """accepted recipients that are neither delivered, nor named in a queued bounce, nor still to do"""
+        self.scan_bounces()
+        delivered = {c["rcpt"] for c in self.cmds if c["verdict"] and c["verdict"][:1] == b"K"}
+        todo = self.still_todo()
+        # failure noted in a bounce record that is still in the queue (the bounce is sent when the message is finished)
+        bq = os.path.join(self.W.home, "queue", "bounce")
+        for sd in os.listdir(bq):
+            p = os.path.join(bq, sd)
+            for f in ([p] if os.path.isfile(p) else [os.path.join(p, x) for x in os.listdir(p)]):
+                try: todo |= set(BOUNCE_RE.findall(open(f, "rb").read()))
+                except OSError: pass
+        bad = []
+        for sender, rcpts in self.accepted:
+            for r in rcpts:
+                if r in delivered or r in self.bounced or r in todo: continue
+                if sender == b"#@[]" and any(c["rcpt"] == r and c["verdict"] and c["verdict"][:1] == b"D" for c in self.cmds): continue   # documented exception
+                bad.append(r)
+        return bad
+    def retried_after_finish(self, marklines):
+        """commands for a (message, recipient) after a K or D report whose completion mark reached the disk"""
+        bad = []
+        fin = {}
+        for i, c in enumerate(self.cmds):
+            key = (c["n"], c["rcpt"])
+            if key in fin: bad.append((key, fin[key], i))
+            if c["verdict"] and c["verdict"][:1] in (b"K", b"D") and (c["n"], c["chan"], c["rcpt"]) in marklines: fin.setdefault(key, i)
+        return bad
+
+def retried_after_mark(events):
+    """delivery commands for a record whose completion mark had already been written (same message, not a new
+    message that reuses the number): [(n, chan, record index, position of the mark, position of the command)]"""
+    marked = {}
+    bad = []
+    for p, ev in enumerate(events):
+        w = ev[2].split(" ")
+        if w[0] == "mark": marked[(w[1], w[2], w[3])] = p
+        elif w[0] == "injmess":
+            for k in [k for k in marked if k[0] == w[2]]: del marked[k]
+        elif w[0] == "cmd":
+            k = (w[3], w[1], w[4])
+            if k in marked: bad.append((int(w[3]), int(w[1]), int(w[4]), marked[k], p))
+    return bad
